@@ -57,6 +57,7 @@ class Env(object):
         self.max_factor = max_factor
         self.max_diff_width = max_diff_width
         self.no_missing = no_missing   # bound: value fields are assumed not to be all ones
+        self.canonical_only = False
 
     def is_missing(self, v, n):
         """Is the n-bit field v all ones?  (Under no_missing the all-ones case is excluded from the run.)"""
@@ -114,6 +115,7 @@ class Reference(object):
         self.outs = [SubsetOut() for _ in range(n_subsets)]
         self.cur = 0  # current subset (uncompressed)
         self.inline_sequences = False
+        self.columns = []   # compressed data: (kind, width, min term, diff width, [diff terms])
 
     # ------------------------------------------------------------------ raw access
     def _u(self, n):
@@ -189,6 +191,8 @@ class Reference(object):
         mn = self._uint_or_none(n)
         w = self._u(6)
         w = self.env.concrete(w, 0, self.env.max_diff_width)
+        col = ['uint', n, mn, w, []]
+        self.columns.append(col)
         if mn is None:
             if w != 0:
                 raise RefMalformed('all-missing column with non-zero difference width')
@@ -199,10 +203,16 @@ class Reference(object):
         out = []
         for _ in range(self.n_subsets):
             d = self._u(w)
+            col[4].append(d)
             if self.env.is_missing(d, w):
+                if self.env.canonical_only and n == 1:
+                    self.env.ctx.assume(False)   # a 1-bit field has no missing value to give to an encoder
                 out.append(None)
             else:
                 raw = mn + d
+                if self.env.canonical_only:
+                    # values "drawn from the representable range of the field": raw <= 2^n - 2 (1-bit: <= 1)
+                    self.env.ctx.assume(self.env.truth(raw <= all_ones(n) - (1 if n > 1 else 0)))
                 if codeflag_width is not None and codeflag_width > 1 and self.env.truth(raw == all_ones(codeflag_width)):
                     # a code/flag value that sums to the element's own all-ones pattern is missing
                     out.append(None)
@@ -216,11 +226,16 @@ class Reference(object):
         mn = self._bytes(nbytes)
         w = self._u(6)
         w = self.env.concrete(w, 0, self.env.max_diff_width)
+        col = ['bytes', nbytes, mn, w, []]
+        self.columns.append(col)
         if w == 0:
             return [mn] * self.n_subsets
         if not self.env.truth(mn == b'\0' * nbytes):
             raise RefMalformed('character column with differences and a non-zero base')
-        return [self._bytes(w) for _ in range(self.n_subsets)]
+        if self.env.canonical_only and w != nbytes:
+            self.env.ctx.assume(False)   # entries of exactly the field width only
+        col[4] = [self._bytes(w) for _ in range(self.n_subsets)]
+        return list(col[4])
 
     def _read_signed(self, n):
         """203: sign bit + magnitude."""
@@ -238,6 +253,9 @@ class Reference(object):
 
     def _signed(self, neg, mag):
         if self.env.truth(neg == 1):
+            if self.env.canonical_only and self.env.truth(mag == 0):
+                # "negative zero" is a second spelling of 0: excluded where canonical streams are the subject
+                self.env.ctx.assume(False)
             return -mag
         return mag
 
@@ -546,9 +564,10 @@ class Reference(object):
 
 
 def reference_decode(ctx, ids, bits, n_subsets=1, compressed=False, pos=0, tables=None,
-                     max_factor=3, max_diff_width=64, no_missing=False, inline_sequences=False):
+                     max_factor=3, max_diff_width=64, no_missing=False, inline_sequences=False, canonical_only=False):
     B, D = tables or load_tables()
     env = Env(ctx, max_factor=max_factor, max_diff_width=max_diff_width, no_missing=no_missing)
+    env.canonical_only = canonical_only
     ref = Reference(B, D, env, bits, pos=pos, n_subsets=n_subsets, compressed=compressed)
     ref.inline_sequences = inline_sequences
     ref.run(ids)
